@@ -18,6 +18,8 @@ EXTENDS Integers, Sequences, FiniteSets, TLC, Json, IOUtils, CSV
 
 CONSTANTS G,          \* grid 0..G
           MaxOps,
+          DegInit,    \* TRUE: initialise is also called with ranges without extent (xmin >= xmax)
+          MaxSpan,    \* longest range handed to exclude / weighted insert (simulation on large grids uses short ones)
           Weights,    \* set of [f, m, xi] for weighted inserts (XY form: sm = m + f, smx = m*xi, c = m*xi*xi)
           Emit
 
@@ -132,14 +134,15 @@ Closest(q, origin) ==
 Init == /\ excl = << >> /\ pos = 0 /\ posm = 0 /\ removed = {} /\ nops = 0 /\ hist = << >> /\ last = [has |-> FALSE]
 
 Initialise(a, b) ==
-  /\ nops = 0 /\ a < b
+  /\ nops = 0
   /\ pos' = a /\ posm' = b
-  /\ excl' = <<Ex(a, b, 1, 0, 0, TRUE)>>             \* weighted<XY>(xmin, xmax, f = 1, a0 = 0, ...), open
+  \* weighted<XY>(xmin, xmax, f = 1, a0 = 0, ...), open; a range without extent has no free interval
+  /\ excl' = IF a < b THEN <<Ex(a, b, 1, 0, 0, TRUE)>> ELSE << >>
   /\ removed' = {} /\ nops' = 1 /\ last' = [has |-> FALSE]
   /\ hist' = <<[op |-> "init", a |-> a, b |-> b, f |-> 0, m |-> 0, xi |-> 0]>>
 
 DoRemove(a, b) ==
-  /\ nops >= 1 /\ nops < MaxOps /\ a < b
+  /\ nops >= 1 /\ nops < MaxOps /\ a < b /\ b - a <= MaxSpan
   /\ excl' = Remove(excl, a, b)
   /\ removed' = removed \cup {k \in Max(a, pos)..(Min(b, posm) - 1) : TRUE}      \* unit cells (k, k+1)
   /\ nops' = nops + 1 /\ last' = [has |-> FALSE]
@@ -147,7 +150,7 @@ DoRemove(a, b) ==
   /\ UNCHANGED <<pos, posm>>
 
 DoInsert(a, b, w) ==
-  /\ nops >= 1 /\ nops < MaxOps /\ a < b
+  /\ nops >= 1 /\ nops < MaxOps /\ a < b /\ b - a <= MaxSpan
   /\ excl' = Insert(excl, Ex(a, b, w.m + w.f, w.m * w.xi, w.m * w.xi * w.xi, FALSE))
   /\ nops' = nops + 1 /\ last' = [has |-> FALSE]
   /\ hist' = Append(hist, [op |-> "insert", a |-> a, b |-> b, f |-> w.f, m |-> w.m, xi |-> w.xi])
@@ -160,7 +163,7 @@ DoClosest(o) ==
   /\ hist' = Append(hist, [op |-> "closest", a |-> o, b |-> 0, f |-> 0, m |-> 0, xi |-> 0])
   /\ UNCHANGED <<excl, pos, posm, removed>>
 
-Next == \/ \E a \in 0..G, b \in 0..G : Initialise(a, b)
+Next == \/ \E a \in 0..G, b \in 0..G : (b > a \/ (DegInit /\ b >= a - 1)) /\ Initialise(a, b)
         \/ \E a \in -1..(G + 1), b \in -1..(G + 1) : DoRemove(a, b)
         \/ \E a \in -1..(G + 1), b \in -1..(G + 1), w \in Weights : DoInsert(a, b, w)
         \/ \E o \in -1..(G + 1) : DoClosest(o)
